@@ -144,7 +144,7 @@ func c13Mutate(g *c13Gen, trees []c13Tree, hist [][]c13Tree, classes map[string]
 		b := r.Intn(nb)
 		t := trees[b]
 		kindOfEdit := r.Intn(11)
-		if r.Chance(15) {
+		if r.Chance(30) {
 			// replace a submodule entry by a file again
 			for _, p := range t.paths() {
 				if t[p] < 0 {
@@ -289,6 +289,9 @@ func TestVerifC13(t *testing.T) {
 					trees[i][p] = g.content(r.Pick(c13Pool))
 				}
 			}
+		}
+		if r.Chance(20) {
+			trees[r.Intn(nb)][r.Pick(c13Paths)] = -1 // starts with a submodule entry somewhere
 		}
 		var hist [][]c13Tree
 		nsteps := 2 + r.Intn(5)
